@@ -427,6 +427,7 @@ var profC12 = profile{
 	accts: [2]int{2, 3}, browsers: [2]int{1, 2}, middlewares: []string{""},
 	// "removed durably before the session is issued": the steps that use a one-time value also run with a backend call failed
 	faultPct: 10, faultOps: []string{"otplogin", "totpvalidate", "smsvalidate"},
+	cancelPct: 5,
 	tweak: func(t *rapid.T, c *harness.Config) {
 		c.EmailAuth = false
 		// lock may be loaded for its hooks (they save the request's user object) but must never lock here
